@@ -52,6 +52,7 @@ type Harness struct {
 	Assume   []string  `json:"assumptions"`
 	Lemmas   string    `json:"lemmas,omitempty"`
 	Threads  bool      `json:"threads,omitempty"` // schedule-dependent: counterexamples are replayed in the engine
+	Differential bool  `json:"differential,omitempty"` // input-free workload compared engine vs native (translator validation)
 	Quick    TierConf  `json:"quick"`
 	Thorough *TierConf `json:"thorough,omitempty"`
 }
@@ -237,6 +238,7 @@ var forbiddenPkgs = map[string]string{
 // ---- check ----
 
 type harnessOutcome struct {
+	diffLines int
 	lemmas []lemmaResult
 	solver string
 	h      Harness
@@ -328,6 +330,14 @@ func cmdCheck(args []string) int {
 		o := runHarness(ld, h, tc, *workers, *solver, *trace, *tier)
 		outs = append(outs, o)
 		classify(o, ld, known, scratch, *noReplay, *prop)
+		if h.Differential {
+			diffs, n := differential(ld, o, scratch)
+			o.diffLines = n
+			if diffs != "" {
+				o.status = "inconclusive"
+				o.why = append(o.why, "translator validation: engine and native results differ: "+diffs)
+			}
+		}
 		if h.Lemmas != "" {
 			var notes []string
 			for _, s := range o.res.Samples {
@@ -667,6 +677,50 @@ func replayInEngine(ld *loaded, h Harness, tc TierConf, v interp.Violation) stri
 		}
 	}
 	return "not-reproduced"
+}
+
+// differential runs an input-free harness natively and compares its notes with the
+// notes of the (single) engine path.
+func differential(ld *loaded, o *harnessOutcome, scratch string) (string, int) {
+	var engineNotes []string
+	for _, s := range o.res.Samples {
+		if len(s.Notes) > len(engineNotes) {
+			engineNotes = s.Notes
+		}
+	}
+	rf := replayFile{Property: o.h.Property, Harness: o.h.Func, Package: o.h.Pkg, Params: o.tc.Params}
+	dir := filepath.Join(verifDir, "replays", o.h.Property)
+	os.MkdirAll(dir, 0o755)
+	path := filepath.Join(dir, o.h.Func+"-differential.json")
+	b, _ := json.MarshalIndent(rf, "", " ")
+	os.WriteFile(path, b, 0o644)
+	out, _ := runReplay(ld.overlay, rf, path, scratch)
+	var nativeNotes []string
+	for _, l := range strings.Split(out, "\n") {
+		if strings.HasPrefix(l, "  note: ") {
+			nativeNotes = append(nativeNotes, strings.TrimPrefix(l, "  note: "))
+		}
+	}
+	if !strings.Contains(out, "VHREPLAY outcome=passed") {
+		return "native run did not pass: " + firstLines(out, 5), 0
+	}
+	if len(engineNotes) != len(nativeNotes) {
+		return fmt.Sprintf("%d engine notes vs %d native notes", len(engineNotes), len(nativeNotes)), len(engineNotes)
+	}
+	for k := range engineNotes {
+		if engineNotes[k] != nativeNotes[k] {
+			return fmt.Sprintf("line %d: engine %q native %q", k, engineNotes[k], nativeNotes[k]), len(engineNotes)
+		}
+	}
+	return "", len(engineNotes)
+}
+
+func firstLines(s string, n int) string {
+	ls := strings.Split(s, "\n")
+	if len(ls) > n {
+		ls = ls[:n]
+	}
+	return strings.Join(ls, " | ")
 }
 
 // ---- native replay ----
